@@ -205,7 +205,11 @@ def analyse(text, devs=frozenset()):
 
 
 def parse_out(impl_out):
-    """-> (list of diag strings, pos_flag) ; raises on unparsable"""
+    """-> (list of diag strings, pos_flag) ; raises on unparsable.  The list is the one of the diagnostics RESPONSE
+    (a trailing !DIRECT[..] carries what the analyzer driven directly said, when that differs)"""
+    k = impl_out.find("!DIRECT[")
+    if k >= 0:
+        impl_out = impl_out[:k]
     flag = impl_out.endswith("!POS")
     if flag:
         impl_out = impl_out[:-4]
